@@ -52,9 +52,15 @@ Definition tree_partial_fit (s : tree) leaf ds rs (cx : mat (R:=R)) : tree :=
 Definition tree_add_arm (s : tree) (a : A) bz : tree :=
   mkTree (t_kf_rebin s) (t_kf_sharedrng s) (t_arms s ++ [a]) (cf_add_arm N aeqb (t_lp s) a bz)
          (aset aeqb (t_exp s) a (zero N)) (aset aeqb (t_leaves s) a []) (t_nf s).
+(* an arm's tree is fitted exactly when rewards have been filed for the arm since the last fit *)
+Definition tree_arm_fitted (lv : list (A * list (nat * list R))) (a : A) : bool :=
+  match aget_d aeqb [] lv a with [] => false | _ => true end.
+(* remove_arm drops the arm's tree: when it was the only fitted one, no tree - hence no feature count - is left *)
 Definition tree_remove_arm (s : tree) (a : A) : tree :=
-  mkTree (t_kf_rebin s) (t_kf_sharedrng s) (lremove aeqb (t_arms s) a) (cf_remove_arm N aeqb (t_lp s) a)
-         (apop aeqb (t_exp s) a) (apop aeqb (t_leaves s) a) (t_nf s).
+  let arms' := lremove aeqb (t_arms s) a in
+  let lv' := apop aeqb (t_leaves s) a in
+  mkTree (t_kf_rebin s) (t_kf_sharedrng s) arms' (cf_remove_arm N aeqb (t_lp s) a)
+         (apop aeqb (t_exp s) a) lv' (if existsb (tree_arm_fitted lv') arms' then t_nf s else None).
 
 (* _create_leaf_lp + fit + predict_expectations()[arm] *)
 Definition leaf_expectation (s : tree) (g : G) (a : A) (rewards : list R) : R * G :=
